@@ -37,7 +37,7 @@ class Batch:
         def d(a):
             if isinstance(a, torch.Tensor):
                 return {"shape": list(a.shape), "dtype": str(a.dtype).replace("torch.", ""), "data": a.tolist()}
-            return a
+            return copy.deepcopy(a)      # a picture of the argument NOW (the callee may rewrite the caller's list later)
         return {"args": [d(a) for a in self.args], "kwargs": {k: d(v) for k, v in self.kwargs.items()}}
 
     @classmethod
